@@ -41,6 +41,12 @@ func drawKeyName(rt *rapid.T, label string) string {
 		bits = 2048
 	case w >= 90:
 		bits = 1024
+	case w >= 84:
+		// parameters whose message length differs from the hash length (Lm = 384, Lh = 256), as in the 4096-bit class
+		if wide := kernel.KeyNamesWide(1024); len(wide) > 0 {
+			return rapid.SampledFrom(wide).Draw(rt, label+"_wide")
+		}
+		bits = 512
 	case w >= 70:
 		bits = 512
 	}
